@@ -280,6 +280,10 @@ func (p *fmter) printComment(comment Comment) {
 
 func (p *fmter) doDescription(desc Description) {
 	linesOut := reformatDescription(desc.Value, 80-p.indent*4)
+	if len(linesOut) == 0 {
+		// a description without words is still a statement, a bare "|"
+		linesOut = []string{""}
+	}
 	p.multiLineToken(desc.SourceNode, "| ", linesOut)
 }
 
